@@ -1,22 +1,189 @@
+// govc: contract-based deductive verifier for the Go subset used by gontainer/gontainer.
 package main
 
 import (
+	"flag"
 	"fmt"
 	"os"
+	"sort"
+	"strings"
+	"time"
 
-	"golang.org/x/tools/go/packages"
-	"golang.org/x/tools/go/ssa"
-	"golang.org/x/tools/go/ssa/ssautil"
+	"govc/internal/engine"
 )
 
+func usage() {
+	fmt.Fprintln(os.Stderr, `usage:
+  govc verify [-func substr] [-prop Cnn] [-v] [-keep] [-timeout s]   developer view: all obligations with verdicts
+  govc check Cnn [--tier quick|thorough]                            registered check for one property
+  govc list                                                          functions under contract
+  govc replay <file>                                                 re-run a replay file
+  govc selftest [-only name]                                         must-fail corpus`)
+	os.Exit(2)
+}
+
+func repoDir() string {
+	if d := os.Getenv("GOVC_REPO"); d != "" {
+		return d
+	}
+	return "/repo"
+}
+
+func verifDir() string {
+	if d := os.Getenv("GOVC_VERIF"); d != "" {
+		return d
+	}
+	return "/verif"
+}
+
 func main() {
-	cfg := &packages.Config{Mode: packages.LoadAllSyntax, Dir: "/repo", BuildFlags: []string{"-tags=verif"}}
-	pkgs, err := packages.Load(cfg, "./...")
+	if len(os.Args) < 2 {
+		usage()
+	}
+	switch os.Args[1] {
+	case "verify":
+		cmdVerify(os.Args[2:])
+	case "check":
+		os.Exit(cmdCheck(os.Args[2:]))
+	case "list":
+		cmdList()
+	case "selftest":
+		os.Exit(cmdSelftest(os.Args[2:]))
+	case "replay":
+		os.Exit(cmdReplay(os.Args[2:]))
+	default:
+		usage()
+	}
+}
+
+func load() *engine.World {
+	w, err := engine.Load(repoDir(), verifDir()+"/contracts/assumed")
 	if err != nil {
-		fmt.Println(err)
+		fmt.Fprintln(os.Stderr, "govc: load:", err)
 		os.Exit(2)
 	}
-	prog, _ := ssautil.AllPackages(pkgs, ssa.InstantiateGenerics|ssa.GlobalDebug)
-	prog.Build()
-	fmt.Println(len(pkgs))
+	return w
+}
+
+func cmdList() {
+	w := load()
+	for _, k := range w.UnitKeys() {
+		s := w.Specs[k]
+		fmt.Printf("%-70s props=%v requires=%d ensures=%d loops=%d trusted=%v\n", k, s.Props, len(s.Requires), len(s.Ensures), len(s.Loops), s.Trusted)
+	}
+}
+
+func cmdVerify(args []string) {
+	fs := flag.NewFlagSet("verify", flag.ExitOnError)
+	fn := fs.String("func", "", "only units whose key contains this")
+	prop := fs.String("prop", "", "only obligations serving this property")
+	verbose := fs.Bool("v", false, "verbose")
+	keep := fs.Bool("keep", false, "keep all query files")
+	timeout := fs.Int("timeout", 10, "solver timeout (s)")
+	all := fs.Bool("all", false, "include functions without contract (safety sweep)")
+	dir := fs.String("dir", "/var/tmp/govc-dev", "scratch dir")
+	_ = fs.Parse(args)
+	t0 := time.Now()
+	w := load()
+	fmt.Printf("loaded in %.1fs; %d functions, %d contracts, %d lemmas\n", time.Since(t0).Seconds(), len(w.Funcs), len(w.Specs), len(w.Lemmas))
+	for _, e := range w.SpecErrs {
+		fmt.Println("SPEC ERROR:", e)
+	}
+	_ = os.MkdirAll(*dir, 0755)
+	keys := w.UnitKeys()
+	if *all {
+		seen := map[string]bool{}
+		for _, k := range keys {
+			seen[k] = true
+		}
+		for k, f := range w.Funcs {
+			if !seen[k] && f.Parent() == nil {
+				keys = append(keys, k)
+			}
+		}
+		sort.Strings(keys)
+	}
+	var obls []*engine.Obligation
+	var units []*engine.Unit
+	for _, k := range keys {
+		if *fn != "" && !strings.Contains(k, *fn) {
+			continue
+		}
+		u := w.VerifyFunc(k)
+		w.Finish(u.VC)
+		units = append(units, u)
+	}
+	for _, l := range w.Lemmas {
+		if *fn != "" && !strings.Contains(l.Name, *fn) {
+			continue
+		}
+		u := w.VerifyLemma(l)
+		w.Finish(u.VC)
+		units = append(units, u)
+	}
+	for _, u := range units {
+		if u.Trusted {
+			fmt.Printf("TRUSTED %s: %s\n", u.Key, u.Why)
+			continue
+		}
+		for _, o := range u.VC.Outside {
+			fmt.Printf("OUTSIDE %s: %s\n", u.Key, o)
+		}
+		if *verbose {
+			for _, wn := range u.VC.Warn {
+				fmt.Printf("warn: %s\n", wn)
+			}
+		}
+		for _, o := range u.VC.Obls {
+			if *prop != "" && !has(o.Props, *prop) {
+				continue
+			}
+			obls = append(obls, o)
+		}
+	}
+	fmt.Printf("generated %d obligations in %.1fs\n", len(obls), time.Since(t0).Seconds())
+	res := engine.DischargeAll(obls, engine.SolveOpts{Timeout: *timeout, Dir: *dir, Keep: *keep, Parallel: 6})
+	counts := map[string]int{}
+	for _, r := range res {
+		counts[r.Status]++
+		if *verbose || (r.Status != "discharged" && r.Status != "cover-ok") {
+			fmt.Printf("%-12s %-80s by=%-8s %.2fs %s  %s:%d\n", r.Status, r.Obl.Name, r.By, r.Wall, fmtAnswers(r.Answers), shortFile(r.Obl.Pos.Filename), r.Obl.Pos.Line)
+			if r.Status != "discharged" && r.Status != "cover-ok" {
+				fmt.Printf("             query: %s\n", r.QueryFile)
+			}
+		}
+	}
+	fmt.Printf("summary: %v  total %.1fs\n", counts, time.Since(t0).Seconds())
+}
+
+func shortFile(f string) string { return strings.TrimPrefix(f, "/repo/") }
+
+func has(xs []string, x string) bool {
+	for _, y := range xs {
+		if y == x {
+			return true
+		}
+	}
+	return false
+}
+
+func cmdCheck(args []string) int    { fmt.Println("not implemented"); return 2 }
+func cmdSelftest(args []string) int { fmt.Println("not implemented"); return 2 }
+func cmdReplay(args []string) int   { fmt.Println("not implemented"); return 2 }
+
+func fmtAnswers(m map[string]string) string {
+	var ks []string
+	for k := range m {
+		ks = append(ks, k)
+	}
+	sort.Strings(ks)
+	var out []string
+	for _, k := range ks {
+		v := m[k]
+		if len(v) > 90 {
+			v = v[:90] + "…"
+		}
+		out = append(out, k+"="+v)
+	}
+	return strings.Join(out, " ")
 }
